@@ -119,7 +119,24 @@ func (g *lawGen) gen(t *TX) string {
 		}
 		body = "return " + s
 	case KNamed:
-		if t.Decl.IsStruct {
+		if t.Decl.IsStruct && t.Decl.Simple {
+			// targets of hand-written instances: values that tell the instances apart (0 vs 1 differ only
+			// in the letter case of one string component, 0 vs 2 only in the last component, 0 vs 4 only
+			// in the first), so that picking the wrong one of local / type's package / derive package shows
+			fs := fieldsOf(t, g.p)
+			firstString := 0
+			for i := len(fs) - 1; i >= 0; i-- {
+				if fs[i].T.Basic == "string" {
+					firstString = i
+				}
+			}
+			args := make([]string, len(fs))
+			for i, f := range fs {
+				args[i] = fmt.Sprintf("%s(ks[%d], d)", g.gen(f.T), i)
+			}
+			body = fmt.Sprintf("var ks [%d]int\nswitch k %% 6 {\ncase 1:\n\tks[%d] = 1\ncase 2:\n\tks[%d] = 2\ncase 3, 5:\n\tfor i := range ks {\n\t\tks[i] = k %% 6\n\t}\ncase 4:\n\tks[0] = 2\n}\nreturn %s(%s)",
+				len(fs), firstString, len(fs)-1, g.xfn("XNew_", t), strings.Join(args, ", "))
+		} else if t.Decl.IsStruct {
 			fs := fieldsOf(t, g.p)
 			args := make([]string, len(fs))
 			for i, f := range fs {
